@@ -35,6 +35,20 @@ pub const GEOMS_FUZZ: &[(u32, u32, u32)] = &[
     (17, 2, 2),
 ];
 
+/// wide and tall screens (masks, column numbers above 127, the 132-column width)
+pub const GEOMS_LARGE: &[(u32, u32, u32)] = &[
+    (80, 24, 4),
+    (132, 24, 3),
+    (140, 40, 2),
+    (70, 33, 2),
+    (100, 12, 2),
+    (40, 40, 2),
+    (129, 2, 1),
+    (131, 5, 1),
+    (133, 3, 1),
+    (65, 34, 1),
+];
+
 pub const GEOMS_ALL: &[(u32, u32, u32)] = &[
     (4, 3, 5),
     (5, 4, 6),
@@ -172,7 +186,9 @@ pub fn num(src: &mut Src, size: u32) -> N {
 
 pub const NARROW: &[char] = &[
     'a', 'b', 'c', 'x', 'Z', '~', ' ', '0', '_', 'q', '\u{a1}', '\u{e9}', '\u{ff}', '\u{416}',
-    '\u{3a9}', '\u{2502}', '\u{2588}', '\u{fffd}',
+    '\u{3a9}', '\u{2502}', '\u{2588}', '\u{fffd}', '\u{100}', '\u{101}', '\u{a0}', '\u{fe}',
+    // spacing combining marks: marks, but with display width 1, so they take a cell
+    '\u{903}', '\u{93e}', '\u{bbf}',
 ];
 pub const WIDE: &[char] =
     &['\u{4e2d}', '\u{6587}', '\u{ff21}', '\u{d55c}', '\u{3042}', '\u{1f600}'];
@@ -191,13 +207,29 @@ pub fn text_char(src: &mut Src) -> char {
     }
 }
 
+/// lengths around powers of two (buffer sizes, fast-path thresholds, bit-mask widths)
+pub const LONG_LENGTHS: &[u32] = &[15, 16, 17, 31, 32, 33, 63, 64, 65, 100, 127, 128, 129, 150, 255, 256, 257];
+
+/// a long run of plain narrow characters
+pub fn long_run(src: &mut Src) -> String {
+    let n = *src.pick(LONG_LENGTHS) as usize;
+    let pat: &[char] = src.pick::<&[char]>(&[&['a'], &['a', 'b', 'c', 'd', 'e', 'f', 'g'], &['x', ' '], &['0', '1', ';', '2'], &['\u{e9}', 'z']]);
+    (0..n).map(|i| pat[i % pat.len()]).collect()
+}
+
 pub fn text(src: &mut Src, max: u32) -> String {
+    if src.chance(10) {
+        return long_run(src);
+    }
     let n = 1 + src.below(max.max(1));
     (0..n).map(|_| text_char(src)).collect()
 }
 
 /// text without characters that are special for the recogniser or unprintable (for titles)
 pub fn plain_text(src: &mut Src, max: u32) -> String {
+    if src.chance(12) {
+        return long_run(src);
+    }
     let n = src.below(max + 1);
     (0..n)
         .map(|_| {
@@ -343,13 +375,23 @@ fn group_ops(src: &mut Src, g: usize, cols: u32, lines: u32, p: &Profile, out: &
                 out.push(Op::Dch(num(src, cols)));
             }
         }
-        7 => {
-            if src.chance(128) {
-                out.push(Op::Sc);
-            } else {
-                out.push(Op::Rc);
+        7 => match src.weighted(&[10, 10, 2, 1]) {
+            0 => out.push(Op::Sc),
+            1 => out.push(Op::Rc),
+            2 => {
+                // deep stacks: a burst of saves (around powers of two)
+                let k = *src.pick(&[2u32, 3, 7, 8, 9, 15, 16, 17, 31, 32, 33, 64]);
+                for _ in 0..k {
+                    out.push(Op::Sc);
+                }
             }
-        }
+            _ => {
+                let k = *src.pick(&[2u32, 3, 8, 16, 17]);
+                for _ in 0..k {
+                    out.push(Op::Rc);
+                }
+            }
+        },
         8 => out.push(Op::Ris),
         9 => {
             let l = if src.chance(64) { None } else { Some(src.range(1, lines + 2)) };
@@ -430,8 +472,34 @@ pub fn encode(s: &str, eight_bit: bool) -> Vec<u8> {
     }
 }
 
+/// zero-pad the decimal parameters of a rendered CSI sequence (the value stays the same)
+pub fn pad_numbers(src: &mut Src, seq: &str) -> String {
+    let is_csi = seq.starts_with("\x1b[") || seq.starts_with('\u{9b}');
+    if !is_csi {
+        return seq.to_string();
+    }
+    let mut out = String::new();
+    let mut prev_digit = false;
+    for c in seq.chars() {
+        if c.is_ascii_digit() && !prev_digit && src.chance(150) {
+            let k = *src.pick(&[1usize, 2, 4, 5, 8, 16, 19, 20, 24]);
+            out.push_str(&"0".repeat(k));
+        }
+        prev_digit = c.is_ascii_digit();
+        out.push(c);
+    }
+    out
+}
+
 /// emit `seq` through the parser kind of this case, possibly cut into chunks
 pub fn feed_ops(src: &mut Src, seq: &str, kind: u32, chunk: u32, out: &mut Vec<Op>) {
+    let padded;
+    let seq = if src.chance(40) {
+        padded = pad_numbers(src, seq);
+        padded.as_str()
+    } else {
+        seq
+    };
     if kind == 0 {
         if src.chance(chunk) {
             chunk_str(src, seq, out);
@@ -513,7 +581,13 @@ fn csi_param(src: &mut Src) -> String {
         1 => src.range(0, 12).to_string(),
         2 => src.pick(&[0u32, 1, 2, 3, 4, 5, 6, 7, 20, 25, 38, 48, 80, 132, 255, 256, 9999]).to_string(),
         3 => src.range(0, 99999).to_string(),
-        4 => format!("0{}", src.range(0, 9)),
+        4 => {
+            // zero padding of every length class (1, around the 4 digits of 9999, around the
+            // 19/20 digits of a u64, far beyond): the value is still the small number
+            let k = *src.pick(&[1usize, 2, 3, 4, 5, 8, 15, 16, 17, 18, 19, 20, 21, 30, 45]);
+            let v = *src.pick(&[0u32, 1, 2, 5, 7, 12, 31, 38, 44, 123, 196, 9999]);
+            format!("{}{}", "0".repeat(k), v)
+        }
         _ => "9".repeat(10 + src.below(30) as usize),
     }
 }
@@ -619,6 +693,10 @@ pub fn osc(src: &mut Src, wellformed: bool, out: &mut String) {
     };
     out.push_str(&code);
     out.push(';');
+    if src.chance(24) {
+        // long payloads (window titles, OSC 8 / 52 style strings)
+        out.push_str(&long_run(src));
+    }
     let n = src.below(7);
     for _ in 0..n {
         match src.weighted(&[20, 4, 3, 3, if wellformed { 0 } else { 1 }]) {
@@ -721,6 +799,53 @@ pub fn chunking(src: &mut Src, b: &[u8]) -> Vec<Vec<u8>> {
         _ => {
             let i = src.below(b.len() as u32 + 1) as usize;
             vec![Vec::new(), b[..i].to_vec(), Vec::new(), Vec::new(), b[i..].to_vec(), Vec::new()]
+        }
+    }
+}
+
+/// Large inputs: a byte string whose length (and whose chunk lengths) sit around the usual
+/// buffer sizes, built by repeating short generated units; exercises per-feed buffering.
+pub fn big_bytes(src: &mut Src, unit_items: u32) -> Vec<u8> {
+    let sizes = [
+        1000u32, 4095, 4096, 4097, 8191, 8192, 8193, 16383, 16384, 16385, 20000, 32767, 32768, 32769, 40000, 65535, 65536,
+        65537, 70000,
+    ];
+    let target = *src.pick(&sizes) as usize + src.below(3) as usize;
+    let mut out = Vec::with_capacity(target + 64);
+    let k = 1 + src.below(3);
+    let units: Vec<Vec<u8>> = (0..k).map(|_| utf8_soup(src, unit_items)).collect();
+    let filler: &[u8] = src.pick::<&[u8]>(&[b"a", b"ab\r\n", b"\xc3\xa9", b"\xe4\xb8\xad", b"x\x1b[1mY", b"\xf0\x9f\x98\x80z"]);
+    let mut i = 0;
+    while out.len() < target {
+        if src.chance(40) || i % 7 == 3 {
+            out.extend_from_slice(&units[i % units.len()]);
+        } else {
+            out.extend_from_slice(filler);
+        }
+        i += 1;
+        if i > 200_000 {
+            break;
+        }
+    }
+    out
+}
+
+pub fn big_chunking(src: &mut Src, b: &[u8]) -> Vec<Vec<u8>> {
+    match src.weighted(&[3, 4, 3, 2]) {
+        0 => vec![b.to_vec()],
+        1 => {
+            // one cut near a buffer-size boundary
+            let at = *src.pick(&[1u32, 4095, 4096, 4097, 8192, 16383, 16384, 16385, 32768, 65536]) as usize;
+            let at = at.min(b.len());
+            vec![b[..at].to_vec(), b[at..].to_vec()]
+        }
+        2 => {
+            let size = *src.pick(&[1000u32, 4096, 5000, 16384, 16385, 33000]) as usize;
+            b.chunks(size).map(|c| c.to_vec()).collect()
+        }
+        _ => {
+            let i = src.below(b.len() as u32 + 1) as usize;
+            vec![b[..i].to_vec(), b[i..].to_vec()]
         }
     }
 }
